@@ -11,7 +11,9 @@ import common, pool, specs, gens, c19
 def lean_request(case, rec, ex):
     e = case["eins"][0]
     d = rec["yaml"]
-    lo = ((d.get("mapping") or {}).get("loop-order") or {}).get(e["out"]) or c19.default_loop_order(case, e)
+    # the loop order is a parameter of the model compiler (the theorems hold for every loop order); when the mapping
+    # omits it, the implementation's own choice is used (that this choice is the canonical default is C19's business)
+    lo = ((d.get("mapping") or {}).get("loop-order") or {}).get(e["out"]) or (pool.loop_ranks(d) or {}).get(e["out"]) or c19.default_loop_order(case, e)
     terms = []
     inputs = {k: {tuple(p): v for p, v in pts} for k, pts in ex["inputs"].items()}
     for t in e["terms"]:
